@@ -117,6 +117,7 @@ func TestC11(t *testing.T) {
 				[]string{}, &zoo.SlStr{L: []string{}}, []interface{}{},
 				&zoo.SlPtr{L: []*zoo.Inner{in, in, nil, in}}, []interface{}{in, "s", in},
 				&zoo.StrCarrier{S: "first string", L: []string{"second", "third"}}, &zoo.FloatFields{F64: 0.1, L64: []float64{2.5, 0.3}},
+				&zoo.PtrNamed{A: 1}, zoo.PtrNamed{A: 2}, []zoo.PtrNamed{{A: 3}}, []interface{}{&zoo.Inner{A: 4}, []*zoo.Inner{{A: 5}}},
 			} {
 				if rapid.Bool().Draw(rt, "special") {
 					vals = append(vals, sp)
@@ -150,10 +151,17 @@ func TestC11(t *testing.T) {
 			rt.Skip("too few values")
 		}
 		tm, nm := hessian.ExtractTypeNameMap(vals)
+		// a quarter of the Serializers and Encoders work without any names (an empty name map: classes travel
+		// under their Go names, lists untyped; the instance enters what it learns into its map, which must not
+		// make it behave differently from a new one)
+		noNames := (kind == "Serializer" || kind == "Encoder") && rapid.IntRange(0, 3).Draw(rt, "withoutNames") == 0
+		if noNames {
+			nm = map[string]string{}
+		}
 		// reference encodings (fresh instance each) of every value
 		enc := make([][]byte, len(vals))
 		for i, v := range vals {
-			b, err := hessian.ToBytes(v, copyNames(nm))
+			b, err := hessian.ToBytes(v, copyNames(nm)) // (a copy: in the mode without names the encoder fills its map)
 			if err != nil {
 				rt.Skip("value does not encode (C01's subject)")
 			}
@@ -176,7 +184,7 @@ func TestC11(t *testing.T) {
 		// in the course of the history (an Encoder / Decoder starts with incomplete maps half of the time)
 		pendingNames := map[string]string{}
 		pendingTypes := map[string]reflect.Type{}
-		if (kind == "Encoder" || kind == "Decoder") && rapid.Bool().Draw(rt, "startIncomplete") {
+		if !noNames && (kind == "Encoder" || kind == "Decoder") && rapid.Bool().Draw(rt, "startIncomplete") {
 			for k, v := range nm {
 				if strings.HasPrefix(k, "[]") {
 					pendingNames[k] = v
@@ -509,7 +517,12 @@ func TestC11(t *testing.T) {
 			default:
 				used = probeEnc(func() ([]byte, error) { return e.Encode(vals[pi]) })
 			}
-			fresh = probeEnc(func() ([]byte, error) { return hessian.NewSerializer(tm, copyNames(pnm)).ToBytes(vals[pi]) })
+			fresh = probeEnc(func() ([]byte, error) {
+				if noNames {
+					return hessian.NewSerializer(tm, map[string]string{}).ToBytes(vals[pi])
+				}
+				return hessian.NewSerializer(tm, copyNames(pnm)).ToBytes(vals[pi])
+			})
 			if m := c11Same("probe encode of "+descs[pi], used, fresh); m != "" {
 				msgs = append(msgs, m)
 			}
@@ -577,7 +590,10 @@ func TestC11(t *testing.T) {
 				}
 			}
 		}
-		if !reflect.DeepEqual(nm, nmBefore) {
+		if noNames {
+			r.Label("instance works without names")
+		}
+		if !noNames && !reflect.DeepEqual(nm, nmBefore) {
 			failf(rt, c, "C11 %s: the complete caller-supplied name map was modified; history %v", kind, hist)
 		}
 		if !reflect.DeepEqual(tm, tmBefore) {
